@@ -67,7 +67,7 @@ CHECKS = {
         "components": {"real": REAL, "stubs": STUBS},
         "assumptions": [
             "keyed commands only (slot-less commands are routed by Go map iteration order, which cannot be seeded)",
-            "all nodes share one host; a MOVED/ASK naming a node with an empty host (':7004') is not generated: rueidis dials ':7004' literally (noted in DESIGN.md, outside this property's text)",
+            "all nodes share one host, so that the fallback for endpoint-less entries and host-less redirects (host of the answering node + listed port) is a real address",
             "a read the caller sent to a replica may be bounced to the primary once (a replica connection opened as InitAddress never sent READONLY): not counted as a re-send",
             "malformed topology replies (wrong types, short arrays) are not generated: that clause is a pure function of the reply and is left to input fuzzing",
             "a primary that never comes back is not generated (DoMulti keeps retrying read-only commands against its dead address; no listed property covers that)",
